@@ -26,7 +26,7 @@ type convSnapOpts struct {
 	features  bool // include the (non-accessor) resolved EditionFeatures of file/message/enum/field/extension
 	eagerOnly bool // only accessors that filedesc serves without lazy initialisation
 
-	// recognisers of listed known findings (narrow masks, see findings/C37.txt)
+	// recognisers of listed known findings (narrow masks, see KNOWN_FINDINGS.txt)
 	maskExtLazy bool            // FK2: IsLazy of extensions whose options say lazy=true
 	maskPacked  map[string]bool // FK3: fields whose options carry both packed and features.repeated_field_encoding
 }
